@@ -68,50 +68,59 @@ package protocol
 
 // ---- the decoder: representation invariant  d.remain >= 0  (bytes of the frame still to be consumed) ----
 
+//@ spec decacct(d any) bool
+//@   macro
+//@   def 0 <= d.remain && d.remain <= old(d.remain) && d.reader.$rpos - old(d.reader.$rpos) == old(d.remain) - d.remain && (old(d.err) != nil ==> d.err == old(d.err))
+
 //@ functype decodeFunc
 //@   requires 0 <= $0.remain && $0.remain <= 0x7fffffff
 //@   modifies $0.remain, $0.err, $0.crc32, $0.buffer, region($rpos)
 //@   ensures $0.remain >= 0 && $0.remain <= old($0.remain)
 //@   ensures old($0.err) != nil ==> $0.err == old($0.err)
+//@   ensures $0.reader.$rpos - old($0.reader.$rpos) == old($0.remain) - $0.remain
 
 //@ func (*decoder).Read
 //@   requires 0 <= d.remain && d.remain <= 0x7fffffff
 //@   modifies d.remain, d.crc32, elems(b), region($rpos)
 //@   ensures 0 <= result0 && result0 <= len(b) && result0 <= old(d.remain) && d.remain == old(d.remain) - result0
+//@   ensures d.reader.$rpos == old(d.reader.$rpos) + result0
 //@   ensures old(d.err) != nil ==> result0 == 0 && result1 == old(d.err)
 
 //@ func (*decoder).setError
 //@   requires 0 <= d.remain && d.remain <= 0x7fffffff
 //@   modifies d.remain, d.err, d.crc32, region($rpos)
-//@   ensures d.remain >= 0 && d.remain <= old(d.remain)
+//@   ensures d.remain >= 0 && d.remain <= old(d.remain) && d.reader.$rpos - old(d.reader.$rpos) == old(d.remain) - d.remain
 //@   ensures old(d.err) != nil ==> d.err == old(d.err) && d.remain == old(d.remain)
 //@   ensures old(d.err) == nil && err != nil ==> d.err == err
 //@   ensures err == nil ==> d.err == old(d.err) && d.remain == old(d.remain)
 
 //@ func (*decoder).discardAll
 //@   requires 0 <= d.remain && d.remain <= 0x7fffffff
+//@   ensures old(d.err) == nil && d.err == nil && implements(d.reader, "protocol.discarder") ==> d.remain == 0
 //@   modifies d.remain, d.err, d.crc32, region($rpos)
-//@   ensures d.remain >= 0 && d.remain <= old(d.remain)
+//@   ensures d.remain >= 0 && d.remain <= old(d.remain) && d.reader.$rpos - old(d.reader.$rpos) == old(d.remain) - d.remain
 //@   ensures old(d.err) != nil ==> d.err == old(d.err)
 
 //@ func (*decoder).discard
 //@   requires 0 <= d.remain && d.remain <= 0x7fffffff
+//@   requires n >= d.remain || implements(d.reader, "protocol.discarder")
+//@   ensures old(d.err) == nil && d.err == nil && implements(d.reader, "protocol.discarder") ==> d.remain == old(d.remain) - min(max(n, 0), old(d.remain))
 //@   modifies d.remain, d.err, d.crc32, region($rpos)
-//@   ensures d.remain >= 0 && d.remain <= old(d.remain)
+//@   ensures d.remain >= 0 && d.remain <= old(d.remain) && d.reader.$rpos - old(d.reader.$rpos) == old(d.remain) - d.remain
 //@   ensures old(d.err) != nil ==> d.err == old(d.err)
 
 //@ func (*decoder).read
 //@   option allocbound max(d.remain, 32767)
 //@   requires 0 <= d.remain && d.remain <= 0x7fffffff
 //@   modifies d.remain, d.err, d.crc32, region($rpos)
-//@   ensures d.remain >= 0 && d.remain <= old(d.remain) && (len(result) <= n || len(result) == 0)
+//@   ensures d.remain >= 0 && d.remain <= old(d.remain) && (len(result) <= n || len(result) == 0) && d.reader.$rpos - old(d.reader.$rpos) == old(d.remain) - d.remain
 //@   ensures old(d.err) != nil ==> d.err == old(d.err)
 //@   ensures d.err == nil ==> len(result) == n && d.remain == old(d.remain) - n
 
 //@ func (*decoder).readFull
 //@   requires 0 <= d.remain && d.remain <= 0x7fffffff
 //@   modifies d.remain, d.err, d.crc32, elems(b), region($rpos)
-//@   ensures d.remain >= 0 && d.remain <= old(d.remain)
+//@   ensures d.remain >= 0 && d.remain <= old(d.remain) && d.reader.$rpos - old(d.reader.$rpos) == old(d.remain) - d.remain
 //@   ensures old(d.err) != nil ==> d.err == old(d.err)
 //@   ensures result ==> d.remain == old(d.remain) - len(b) && d.err == old(d.err)
 //@   ensures !result && len(b) > 0 ==> d.err != nil
@@ -124,27 +133,34 @@ package protocol
 //@   modifies $0.remain, $0.err, $0.crc32, $0.buffer, region($rpos)
 //@   ensures $0.remain >= 0 && $0.remain <= old($0.remain)
 //@   ensures old($0.err) != nil ==> $0.err == old($0.err)
+//@   ensures $0.reader.$rpos - old($0.reader.$rpos) == old($0.remain) - $0.remain
 //@ func (*decoder).readBool
 //@   option as decodeFunc0
+//@   ensures old(d.err) == nil && d.err == nil ==> d.remain == old(d.remain) - 1
 //@ func (*decoder).readInt8
 //@   option as decodeFunc0
+//@   ensures old(d.err) == nil && d.err == nil ==> d.remain == old(d.remain) - 1
 //@ func (*decoder).readInt16
 //@   option as decodeFunc0
+//@   ensures old(d.err) == nil && d.err == nil ==> d.remain == old(d.remain) - 2
 //@ func (*decoder).readInt32
 //@   option as decodeFunc0
+//@   ensures old(d.err) == nil && d.err == nil ==> d.remain == old(d.remain) - 4
 //@ func (*decoder).readInt64
 //@   option as decodeFunc0
+//@   ensures old(d.err) == nil && d.err == nil ==> d.remain == old(d.remain) - 8
 //@ func (*decoder).readFloat64
 //@   option as decodeFunc0
+//@   ensures old(d.err) == nil && d.err == nil ==> d.remain == old(d.remain) - 8
 //@ func (*decoder).readVarInt
 //@   option as decodeFunc0
 //@   ensures old(d.err) == nil && d.err == nil ==> d.remain < old(d.remain)
-//@   loop 0 invariant d.remain >= 0 && d.remain <= old(d.remain) && n <= 11 && (old(d.err) != nil ==> d.err == old(d.err))
+//@   loop 0 invariant decacct(d) && n <= 11
 //@   loop 0 decreases n
 //@ func (*decoder).readUnsignedVarInt
 //@   option as decodeFunc0
 //@   ensures old(d.err) == nil && d.err == nil ==> d.remain < old(d.remain)
-//@   loop 0 invariant d.remain >= 0 && d.remain <= old(d.remain) && n <= 11 && (old(d.err) != nil ==> d.err == old(d.err))
+//@   loop 0 invariant decacct(d) && n <= 11
 //@   loop 0 decreases n
 //@ func (*decoder).readString
 //@   option as decodeFunc0
@@ -183,23 +199,24 @@ package protocol
 //@ func (*decoder).decodeArray
 //@   option as decodeFunc
 //@   option allocbound max(d.remain, 32767)
-//@   loop 0 invariant d.remain >= 0 && d.remain <= old(d.remain) && 0 <= i && i <= int(n) && a.length() == int(n) && (old(d.err) != nil ==> d.err == old(d.err))
+//@   loop 0 invariant decacct(d) && 0 <= i && i <= int(n) && a.length() == int(n)
 //@   loop 0 decreases int(n) - i
 //@ func (*decoder).decodeCompactArray
 //@   option as decodeFunc
 //@   option allocbound max(d.remain, 32767)
-//@   loop 0 invariant d.remain >= 0 && d.remain <= old(d.remain) && 0 <= i && i <= int(n-1) && a.length() == int(n-1) && (old(d.err) != nil ==> d.err == old(d.err))
+//@   loop 0 invariant decacct(d) && 0 <= i && i <= int(n-1) && a.length() == int(n-1)
 //@   loop 0 decreases int(n-1) - i
 
 //@ iface discarder.Discard
-//@   trusted bufio.Reader.Discard / protocol.Conn.Discard: skips at most n bytes
+//@   trusted bufio.Reader.Discard / protocol.Conn.Discard: skips at most n bytes, exactly n when it reports no error
 //@   modifies region($rpos)
-//@   ensures 0 <= result0 && result0 <= $1
+//@   ensures 0 <= result0 && result0 <= $1 && recv.$rpos == old(recv.$rpos) + result0
+//@   ensures result1 == nil ==> result0 == $1
 
 //@ func (*decoder).writeTo
 //@   requires 0 <= d.remain && d.remain <= 0x7fffffff && n >= 0
 //@   modifies d.remain, d.err, d.crc32, region($rpos)
-//@   ensures d.remain >= 0 && d.remain <= old(d.remain)
+//@   ensures d.remain >= 0 && d.remain <= old(d.remain) && d.reader.$rpos - old(d.reader.$rpos) == old(d.remain) - d.remain
 //@   ensures old(d.err) != nil ==> d.err == old(d.err)
 
 //@ func readInt8
@@ -226,15 +243,17 @@ package protocol
 
 //@ func ReadResponse
 //@   option noframe
+//@   ensures err == nil ==> r.$rpos <= old(r.$rpos) + 4 + mathint(size#0)
+//@   ensures err == nil && implements(r, "protocol.discarder") ==> r.$rpos == old(r.$rpos) + 4 + mathint(size#0)
 //@   unproved index@"t.responses[apiVersion-minVersion]" registry invariant: typesOf() fills responses[v-min] for every min <= v <= max, so the index is in range whenever the version test above passed
 //@   ensures err == nil ==> msg != nil
-//@   loop 0 invariant 0 <= d.remain && d.remain <= 0x7fffffff && 0 <= i
+//@   loop 0 invariant 0 <= d.remain && d.remain <= 0x7fffffff && 0 <= i && d.reader == r && r.$rpos + d.remain == old(r.$rpos) + 4 + mathint(size#0)
 //@   loop 0 decreases d.remain + ite(d.err == nil, 1, 0)
 
 //@ func structDecodeFuncOf$2
 //@   option as decodeFunc
-//@   loop 0 invariant 0 <= d.remain && d.remain <= old(d.remain) && (old(d.err) != nil ==> d.err == old(d.err))
-//@   loop 1 invariant 0 <= d.remain && d.remain <= old(d.remain) && (old(d.err) != nil ==> d.err == old(d.err)) && 0 <= i
+//@   loop 0 invariant decacct(d)
+//@   loop 1 invariant decacct(d) && 0 <= i
 //@   loop 1 decreases d.remain + ite(d.err == nil, 1, 0)
 
 //@ func arrayDecodeFuncOf$1
